@@ -48,6 +48,9 @@ var c19Templates = []c19Template{
 	{"supplies-required", map[string]any{"$match": map[string]any{"a": 1}, "need": "given"}, false},
 	{"hidden-root", map[string]any{"$output": false, "a": 1, "c": map[string]any{"x": 1}}, false},
 	{"cross-doc-replace-list", map[string]any{"y": map[string]any{"$replace": []any{map[string]any{"a": 1}, "c"}}, "l": []any{[]any{map[string]any{"$merge": map[string]any{"$match": map[string]any{"a": 1}, "$path": "c"}, "z": 0}}}}, false},
+	{"hidden-template-doc", map[string]any{"$output": false, "tid": 1, "image": "nginx", "opts": map[string]any{"x": 1}}, false},
+	{"refers-to-template-doc", map[string]any{"app": 1, "image": map[string]any{"$replace": map[string]any{"$match": map[string]any{"tid": 1}, "$path": "image"}}, "o": map[string]any{"$merge": []any{map[string]any{"tid": 1}, "opts"}, "y": 2}}, false},
+	{"template-doc-gains-required", map[string]any{"$match": map[string]any{"tid": 1}, "image": "$required", "opts": map[string]any{"x": 2}}, false},
 }
 
 // operations: 0..3 = merge template k of the chosen set, 4 = MergeFileLayers,
@@ -444,13 +447,13 @@ func buildC19(tier string) *core.Plan {
 			}
 		}
 	} else {
-		sets = [][]int{{0, 1, 6, 9}, {2, 3, 4, 10}, {5, 7, 8, 11}, {0, 1, 2, 8}, {0, 11, 13, 9}, {12, 14, 1, 6}, {0, 21, 13, 14}, {15, 16, 17, 13}, {18, 19, 0, 9}, {20, 0, 6, 13}}
+		sets = [][]int{{0, 1, 6, 9}, {2, 3, 4, 10}, {5, 7, 8, 11}, {0, 1, 2, 8}, {0, 11, 13, 9}, {12, 14, 1, 6}, {0, 21, 13, 14}, {15, 16, 17, 13}, {18, 19, 0, 9}, {20, 0, 6, 13}, {22, 23, 24, 0}}
 	}
 	statelessSets := sets
 	if thorough {
-		statelessSets = [][]int{{0, 1, 6, 9}, {2, 3, 4, 10}, {5, 7, 8, 11}, {0, 1, 2, 8}, {0, 6, 9, 11}, {1, 4, 8, 10}, {0, 11, 13, 9}, {12, 14, 1, 6}, {0, 21, 13, 14}, {15, 16, 17, 13}, {18, 19, 0, 9}, {20, 0, 6, 13}}
+		statelessSets = [][]int{{0, 1, 6, 9}, {2, 3, 4, 10}, {5, 7, 8, 11}, {0, 1, 2, 8}, {0, 6, 9, 11}, {1, 4, 8, 10}, {0, 11, 13, 9}, {12, 14, 1, 6}, {0, 21, 13, 14}, {15, 16, 17, 13}, {18, 19, 0, 9}, {20, 0, 6, 13}, {22, 23, 24, 0}}
 	} else {
-		statelessSets = [][]int{sets[0], sets[1], sets[4], sets[5], sets[7], sets[8], sets[9]}
+		statelessSets = [][]int{sets[0], sets[1], sets[4], sets[5], sets[7], sets[8], sets[9], sets[10]}
 	}
 
 	// stateless: case = (set, first two ops); inner = all continuations
